@@ -1,5 +1,5 @@
 /* drv_hdr.c -- iterates over an archive with lha_basic_reader and prints every
-   header field:  hdr <kind> <hex>      kind: file | pipe | cbskip | cbnoskip
+   header field:  hdr|hdrs <kind> <hex>      kind: file | pipe | cbskip | cbnoskip
    One output line per case. */
 #include <stdio.h>
 #include <stdlib.h>
@@ -31,7 +31,8 @@ int main(void)
 		while ((h = lha_basic_reader_next_file(r)) != NULL && count < 10000) {
 			uint8_t d[8]; size_t got;
 			print_header(h);
-			got = lha_basic_reader_read_compressed(r, d, sizeof(d));
+			/* "hdrs": headers only -- the member's data is skipped without any read */
+			got = strcmp(cmd, "hdrs") == 0 ? 0 : lha_basic_reader_read_compressed(r, d, sizeof(d));
 			fputs(" d=", stdout); print_hex(d, got);
 			fputs(" ; ", stdout);
 			++count;
